@@ -135,6 +135,7 @@ func init() {
 				out = append(out, sc)
 			}
 		}
+		out = append(out, graphScenarios(thorough)...)
 		return out, nil
 	})
 }
